@@ -195,7 +195,7 @@ TodoOps == {OpGetParam("p1"), OpGetParam("p2"), OpGetParam("p4"), OpGet("s1"), O
 (* x what the second service does (own getter, the same getter, todo with a getter).       *)
 ApiGetters == IF Family = "apiq" THEN {Unset, "GetA", "MustGetA", "GetAInContext", "Get", "Container", "HotSwap", "_getEnv"}
               ELSE {Unset, "GetA", "MustGetA", "GetAInContext", "Container", "_getEnv", "_concatenateChunks", "_x"} \cup RuntimeAPI
-ApiTypes   == IF Family = "apiq" THEN {Unset, "*fx.T", "fx.T", "fx.N"} ELSE {Unset, "*fx.T", "fx.T", "*\"probe.test/fx\".T", "*T", "\".\".T", "fx.N"}
+ApiTypes   == IF Family = "apiq" THEN {Unset, "*fx.T", "fx.T", "fx.N", "*T"} ELSE {Unset, "*fx.T", "fx.T", "*\"probe.test/fx\".T", "*T", "\".\".T", "fx.N"}
 Tri == {Unset, "true", "false"}
 ApiCfg0(g, t, m, dm, named, second) ==
   LET byval == t \in {"fx.T", "\".\".T", "fx.N"} IN
@@ -216,6 +216,15 @@ ApiCfgs(zz) == {ApiCfg(g, t, m, dm, {}, sec) : g \in ApiGetters, t \in ApiTypes,
            \cup {ApiCfg(g, "*fx.T", "true", Unset, n, "own") : g \in {Unset, "GetA"}, n \in SUBSET {"pkg", "ctype", "cctor"}}
            \cup {ApiCfgS("GetA", t, m, dm, {}, sec, sc) : t \in {"*fx.T", Unset}, m \in {"true", Unset}, dm \in {"true", Unset},
                                                        sec \in {"own", "none"}, sc \in {"contextual", "non_shared"}}
+(* the getter attributes of one service spread over two files: the later file wins attribute by attribute (Merge.tla), an     *)
+(* explicit false included; default_must_getter likewise                                                                    *)
+ApiFileSets(zz) ==
+  LET DM1 == IF Family = "apiq" THEN {Unset} ELSE Tri
+      DM2 == IF Family = "apiq" THEN {Unset, "true"} ELSE Tri IN
+  { << ApiCfg(g[1], "*fx.T", m1, dm1, {}, "none"),
+       [EmptyCfg EXCEPT !.meta = [EmptyMeta EXCEPT !.defmust = dm2],
+                        !.services = ("s1" :> [EmptySvc EXCEPT !.must = m2, !.getter = g[2]])] >> :
+      g \in {<<"GetA", Unset>>, <<Unset, "GetA">>, <<"GetA", "GetB">>}, m1 \in Tri, m2 \in Tri, dm1 \in DM1, dm2 \in DM2 }
 (* every generated method is exercised, then Get for identity *)
 ApiScript(c) ==
   LET gs == SortSeq(SetToSeq({c.services[s].getter : s \in WithGetter(c)}), NameLt)
@@ -359,6 +368,7 @@ Configs ==
 NoFl == [ignoreP |-> FALSE, ignoreS |-> FALSE]
 FileSets ==
   CASE Family \in {"tags", "tagsq"} -> {f \in TagFileSets(0) : OutputAccepted(MergeAll(f), NoFl)}
+    [] Family \in {"api", "apiq"} -> {<<c>> : c \in Configs} \cup ApiFileSets(0)
     [] OTHER -> {<<c>> : c \in Configs}
 IsImports == Family \in {"imports", "importsq"}
 
